@@ -17,6 +17,8 @@ func init() {
 		{Name: "panicking test exits without FAIL", File: f, Old: "\t\t\tfmt.Printf(\"FAIL %s %v\\n\", prog.Manifest.MainPkg, time.Since(startTime).Round(time.Millisecond))\n\t\t\tos.Exit(1)\n\t\t}\n\n\t\tstdout = fmtGotOutput(stdout)", New: "\t\t\tos.Exit(1)\n\t\t}\n\n\t\tstdout = fmtGotOutput(stdout)", Expect: "failing-exit-says-FAIL"},
 		{Name: "output contract compared with inequality", File: f, Old: "if t.Output != \"\" && t.Output == string(stdout) {\n\t\t\tcontinue\n\t\t}\n\n\t\tif err != nil {\n\t\t\tif firstError == nil {\n\t\t\t\tfirstError = err\n\t\t\t}\n\t\t\tif _, ok := wazero.AsExitError(err); ok {\n\t\t\t\tfmt.Printf(\"---- %s.%s\\n\", prog.Manifest.MainPkg, t.Name)\n\t\t\t\tif s := sWithPrefix(string(stdout), \"    \"); s != \"\" {\n\t\t\t\t\tfmt.Println(s)\n\t\t\t\t}\n\t\t\t\tif s := sWithPrefix(string(stderr), \"    \"); s != \"\" {\n\t\t\t\t\tfmt.Println(s)\n\t\t\t\t}\n\t\t\t} else {\n\t\t\t\tfmt.Println(err)\n\t\t\t}\n\t\t}\n\n\t\tif t.Output != \"\" {\n\t\t\tif expect, got := t.Output, string(stdout); expect != got {", New: "if t.Output != \"\" && t.Output == string(stdout) {\n\t\t\tcontinue\n\t\t}\n\n\t\tif err != nil {\n\t\t\tif firstError == nil {\n\t\t\t\tfirstError = err\n\t\t\t}\n\t\t\tif _, ok := wazero.AsExitError(err); ok {\n\t\t\t\tfmt.Printf(\"---- %s.%s\\n\", prog.Manifest.MainPkg, t.Name)\n\t\t\t\tif s := sWithPrefix(string(stdout), \"    \"); s != \"\" {\n\t\t\t\t\tfmt.Println(s)\n\t\t\t\t}\n\t\t\t\tif s := sWithPrefix(string(stderr), \"    \"); s != \"\" {\n\t\t\t\t\tfmt.Println(s)\n\t\t\t\t}\n\t\t\t} else {\n\t\t\t\tfmt.Println(err)\n\t\t\t}\n\t\t}\n\n\t\tif t.Output != \"\" {\n\t\t\tif expect, got := t.Output, string(stdout); len(expect) != len(got) {", Expect: "contract-comparison"},
 		{Name: "expected panic accepted when the function returned normally", File: f, Old: "if exitCode, _ := wazero.AsExitError(err); exitCode == 0 {\n\t\t\t\tfmt.Printf(\"---- %s.%s\\n\", prog.Manifest.MainPkg, t.Name)\n\t\t\t\tfmt.Printf(\"    expect panic, got = nil\\n\")\n\n\t\t\t\tif firstError == nil {\n\t\t\t\t\tfirstError = fmt.Errorf(\"expect(panic) = %q, got = %q\", expect, \"nil\")\n\t\t\t\t}\n\t\t\t\tcontinue\n\t\t\t}", New: "if exitCode, _ := wazero.AsExitError(err); exitCode == 0 {\n\t\t\t\tcontinue\n\t\t\t}", Expect: "contract-comparison"},
+		{Name: "output buffers emptied before the module is instantiated instead of after", File: "internal/wazero/module.go", Old: "func (p *Module) RunFunc(name string, args ...uint64) (result []uint64, stdout, stderr []byte, err error) {\n", New: "func (p *Module) RunFunc(name string, args ...uint64) (result []uint64, stdout, stderr []byte, err error) {\n\tp.stdoutBuffer.Reset()\n\tp.stderrBuffer.Reset()\n", Old2: "\t}\n\n\tp.stdoutBuffer.Reset()\n\tp.stderrBuffer.Reset()\n\tfn := p.wazeroModule.ExportedFunction(name)", New2: "\t}\n\n\tfn := p.wazeroModule.ExportedFunction(name)", Expect: "output-window"},
+		{Name: "stderr of the previous test leaks into the next", File: "internal/wazero/module.go", Old: "\tp.stdoutBuffer.Reset()\n\tp.stderrBuffer.Reset()\n\tfn := p.wazeroModule.ExportedFunction(name)", New: "\tp.stdoutBuffer.Reset()\n\tfn := p.wazeroModule.ExportedFunction(name)", Expect: "output-window"},
 		{Name: "compile error of the test package exits 0", File: f, Old: "\twatOutput, err := compiler_wat.New().Compile(prog)\n\tif err != nil {\n\t\tfmt.Println(err)\n\t\tos.Exit(1)", New: "\twatOutput, err := compiler_wat.New().Compile(prog)\n\tif err != nil {\n\t\tfmt.Println(err)\n\t\tos.Exit(0)", Expect: "infrastructure-failure-exits-nonzero"},
 	}})
 }
@@ -92,6 +94,9 @@ func runC30(c *Ctx) {
 	}
 	info := pk.TypesInfo
 	c30Extra(c, p, pk, p.Pkg("internal/loader"))
+	if wz := p.MustPkg("output-window", "internal/wazero"); wz != nil {
+		c30OutputWindow(c, p, wz)
+	}
 	fd := p.MustFunc("report-implies-record", pk, "runTest")
 	if fd == nil {
 		return
@@ -257,18 +262,8 @@ func runC30(c *Ctx) {
 				return true
 			}
 			cond := strings.ReplaceAll(types.ExprString(ifs.Cond), " ", "")
-			bodyContinues := false
-			for _, t := range ifs.Body.List {
-				if b, ok := t.(*ast.BranchStmt); ok && b.Tok == token.CONTINUE {
-					bodyContinues = true
-				}
-			}
 			records := assignsIdent(ifs.Body.List, "firstError")
 			switch {
-			case cond == `t.Output!=""&&t.Output==string(stdout)` && bodyContinues && !records:
-				passEq = true
-			case cond == "expect!=got" && records:
-				failNeq = true
 			case cond == "exitCode==0" && records:
 				panicNil = true
 			case cond == `!strings.HasPrefix(got,"panic:"+expect)` && records: // spaces were stripped, also inside the literal
@@ -276,8 +271,11 @@ func runC30(c *Ctx) {
 			}
 			return true
 		})
-		c.Check(passEq, r4, name+": pass on equal output", p.Pos(fs.Pos()), "declared output compared by equality", "the pass decision is not `t.Output != \"\" && t.Output == string(stdout)`")
-		c.Check(failNeq, r4, name+": fail on different output", p.Pos(fs.Pos()), "mismatch records a failure", "an output mismatch (expect != got) does not record a failure")
+		// the output comparison is read per world (c30_contract.go): output declared or not, equal to the run's or not
+		var why []string
+		passEq, failNeq, why = outputContract(info, fd, loopBody)
+		c.Check(passEq, r4, name+": pass on equal output", p.Pos(fs.Pos()), "a test passes by its output exactly when an output is declared and equals the run's", "the pass decision is not `t.Output != \"\" && t.Output == string(stdout)`: "+strings.Join(why, "; "))
+		c.Check(failNeq, r4, name+": fail on different output", p.Pos(fs.Pos()), "a failure is recorded exactly when an output is declared and differs from the run's", "an output mismatch (expect != got) does not record a failure, or a failure is recorded without one: "+strings.Join(why, "; "))
 		c.Check(panicNil, r4, name+": declared panic, normal return", p.Pos(fs.Pos()), "recorded as failure", "a test that declares a panic but returns normally is not recorded as a failure")
 		c.Check(panicPrefix, r4, name+": declared panic message", p.Pos(fs.Pos()), "requires the \"panic: \"+expected prefix", "the panic message is not checked against \"panic: \"+expected")
 	}
